@@ -21,7 +21,7 @@ func TestC13(t *testing.T) {
 	edits := &w.Alpha{PT: true, Templates: []string{"A", "B", "C", "="}}
 	// the same edits with a rejected List / Create / Delete of replica sets in the ExtendedDaemonSet reconcile
 	editsFaults := &w.Alpha{Templates: []string{"A", "B"}, EDSFaults: []string{"reject:list ExtendedDaemonSetReplicaSet", "lost:create ExtendedDaemonSetReplicaSet", "reject:delete ExtendedDaemonSetReplicaSet"}}
-	editsCanary := &w.Alpha{Templates: []string{"A", "B", "C"}, Kubectl: []string{"canary-validate", "canary-fail"}}
+	editsCanary := &w.Alpha{PT: true, Templates: []string{"A", "B", "C"}, Kubectl: []string{"canary-validate", "canary-fail"}}
 	s2 := corpusS2(n, "1", b, edits)
 	// n1 carries a resource override annotation (its hash is stamped next to the template hash on the pods)
 	s2.nodeAnnots = map[string]map[string]string{"n1": {"resources.extendeddaemonset.datadoghq.com/ns.foo.main": `{"requests":{"cpu":"200m"}}`}}
